@@ -72,6 +72,33 @@ def check_config(ift, c, jaxcf=None):
     except Exception as e:
         out.append("create_power_operator with a spectrum given as a Field raised %s: %s" % (type(e).__name__, str(e)[:100]))
     if c["binning"] == "natural":
+        sv = q(c["sigvar"])
+        for label, space in (("the power space", ps), ("the harmonic space", sp)):
+            try:
+                got = float(ift.get_signal_variance(lambda k: 1. + k ** 2, space))
+                if not np.isclose(got, sv, rtol=1e-13):
+                    out.append("get_signal_variance(1 + k^2, %s) = %r, the sum over the modes of spectrum x pixel volume^2 is %r" % (label, got, sv))
+            except Exception as e:
+                out.append("get_signal_variance on %s raised %s: %s" % (label, type(e).__name__, str(e)[:100]))
+        # bin bounds suggested for this space must give a valid binning (no empty bin), with and without a requested number of bins
+        # (spaces with exactly three distinct k-lengths are left out: there the finest linear suggestion has an empty bin - DESIGN S.5,
+        #  the helper's claim is not part of C08 / C10, the constructor refuses such bounds as specified)
+        for logarithmic in ((False, True) if len(c["uniq"]) >= 4 else ()):
+            try:
+                bb_ = ift.PowerSpace.useful_binbounds(sp, logarithmic)
+                ps_ = ift.PowerSpace(sp, binbounds=bb_)
+                if ps_.shape[0] != len(bb_) + 1:
+                    out.append("useful_binbounds(logarithmic=%s): %d bounds give %d bins" % (logarithmic, len(bb_), ps_.shape[0]))
+                bb3 = ift.PowerSpace.useful_binbounds(sp, logarithmic, 3)
+                if len(bb3) != 2 or not np.isclose(bb3[0], bb_[0]) or not np.isclose(bb3[-1], bb_[-1]):
+                    out.append("useful_binbounds(logarithmic=%s, nbin=3) = %s does not span the bounds of the finest binning %s" % (logarithmic, bb3.tolist(), [bb_[0], bb_[-1]]))
+                ift.PowerSpace(sp, binbounds=bb3)
+            except ValueError as e:
+                if "enough unique" in str(e):
+                    continue
+                out.append("useful_binbounds(logarithmic=%s) does not give a usable binning: %s" % (logarithmic, str(e)[:100]))
+            except Exception as e:
+                out.append("useful_binbounds(logarithmic=%s) raised %s: %s" % (logarithmic, type(e).__name__, str(e)[:100]))
         fn = lambda k: 1. / (1. + k) ** 2
         op3 = ift.create_power_operator(sp, fn)
         if not np.allclose(op3(ift.full(sp, 1.)).asnumpy().ravel(), fn(np.asarray(ps.k_lengths))[bins], rtol=1e-14):
@@ -85,6 +112,27 @@ def check_config(ift, c, jaxcf=None):
             cnt = np.array([b["count"] for b in sorted(c["bins"], key=lambda b: b["bin"])])
             if not (np.array_equal(np.asarray(idx).ravel(), bins) and np.array_equal(np.asarray(mult), cnt)):
                 out.append("nifty.re get_fourier_mode_distributor bins the modes differently: %s vs %s" % (np.asarray(idx).ravel().tolist(), bins.tolist()))
+    return out
+
+
+def check_binbounds(ift, c):
+    out = []
+    lin = c["lin"]
+    for nb in range(3, 7):
+        exp = lin[str(nb)] if isinstance(lin, dict) else lin[nb - 3]
+        got = ift.PowerSpace.linear_binbounds(nb, 0.5, 3.)
+        e = np.array([q(v) for v in exp])
+        if got.shape != e.shape or not np.allclose(got, e, rtol=1e-15, atol=0):
+            out.append("linear_binbounds(%d, 1/2, 3) = %s, equidistant bounds are %s" % (nb, got.tolist(), e.tolist()))
+        lg = ift.PowerSpace.logarithmic_binbounds(nb, 0.5, 3.)
+        if lg.shape != e.shape or not np.isclose(lg[0], 0.5, rtol=1e-14) or not np.isclose(lg[-1], 3., rtol=1e-14) or not np.allclose(lg[1:] / lg[:-1], (3. / 0.5) ** (1. / (nb - 2)), rtol=1e-13):
+            out.append("logarithmic_binbounds(%d, 1/2, 3) = %s is not the geometric progression from 1/2 to 3" % (nb, lg.tolist()))
+    for bad in (2, 1):
+        try:
+            ift.PowerSpace.linear_binbounds(bad, 0.5, 3.)
+            out.append("linear_binbounds accepts nbin = %d" % bad)
+        except ValueError:
+            pass
     return out
 
 
@@ -110,6 +158,8 @@ def run(ctx):
             for msg in check_config(ift, c, jaxcf):
                 ctx.violation(dict(kind="power", what=msg.split(" ")[0], binning=c["binning"]), "harmonic RGSpace%s distances %s, %s binning %s: %s" % (
                     tuple(c["shape"]), [q(x) for x in c["d"]], c["binning"], [q(b) for b in c["bounds"]], msg), replay=dict(config=c))
+    for msg in check_binbounds(ift, cfgs[0]):
+        ctx.violation(dict(kind="binbounds"), msg, replay=dict(what="binbounds"))
     ctx.traces += len(cfgs)
     ctx.sample(dict(configuration=dict(shape=cfgs[7]["shape"], d=cfgs[7]["d"], binning=cfgs[7]["binning"]), pindex=[p["bin"] for p in sorted(cfgs[7]["pix"], key=lambda p: p["flat"])]))
     ctx.notes.update(configurations=len(cfgs), with_valid_binning=nv)
